@@ -168,7 +168,7 @@ def handleScrub (req : Json) : Except String String := do
   let r ← toRaw rj
   let cfg := getCfg req
   let x ← getNull req
-  pure ("{\"model\":" ++ (Scrub.run cfg x r).render ++ "}")
+  pure ("{\"model\":" ++ (Scrub.parse1 cfg x r).render ++ "}")
 
 partial def toT : Json → Except String T
   | .arr xs =>
